@@ -7,6 +7,7 @@ pydiff.build_tree} x dictionary strategies x cycle options. Oracle: acyclic -> t
 lists, sets as bags), the entry points agree, copy() gives an equal tree; shared sub-objects are not reported as cycles;
 cyclic -> terminates with a cycle error, or with a placeholder when cycles are ignored.
 """
+import enum
 import itertools
 import json
 
@@ -35,6 +36,35 @@ MANIFEST = {
 }
 
 TYPES = ('list', 'tuple', 'dict', 'set')
+
+
+class UserId(int):
+    pass
+
+
+class Tag(str):
+    pass
+
+
+class Ratio(float):
+    pass
+
+
+class Level(enum.IntEnum):
+    LOW = 3
+
+
+# scalars whose type is a proper subclass of a supported scalar type: they read back as (equal to) the base value
+SUBCLASS_SCALARS = (UserId(7), Tag('t'), Ratio(2.5), Level.LOW)
+
+
+def base_value(v):
+    if type(v) in (bool, int, float, str):
+        return v
+    for base in (int, float, str):
+        if isinstance(v, base) and type(v) is not base:
+            return base(v)
+    return v
 NAN = float('nan')     # one object: a set built from it twice holds it once, like any other scalar
 
 
@@ -175,7 +205,7 @@ class Unbuildable(Exception):
 
 def expected(spec, i=0, depth=0):
     typ, slots = spec[i]
-    vals = [v if kind == 's' else expected(spec, v, depth + 1) for kind, v in slots]
+    vals = [base_value(v) if kind == 's' else expected(spec, v, depth + 1) for kind, v in slots]
     if typ in ('list', 'tuple'):
         return vals
     if typ == 'dict':
@@ -196,7 +226,7 @@ def expected_with_placeholders(spec, i=0, stack=()):
     vals = []
     for kind, v in slots:
         if kind == 's':
-            vals.append(v)
+            vals.append(base_value(v))
         elif v == i or v in stack:
             vals.append(CYCLE)
         else:
@@ -233,7 +263,7 @@ def plain_with_placeholders(tree):
         return Bag([plain_with_placeholders(c) for c in tree])
     if isinstance(tree, graphtage.ListNode):
         return [plain_with_placeholders(c) for c in tree._children]
-    return plain(tree)
+    return base_value(plain(tree))
 
 
 def has_set(spec):
@@ -271,11 +301,11 @@ def norm_obj(o):
         return {norm_key(k): norm_obj(v) for k, v in o.items()}
     if isinstance(o, (list, tuple)):
         return [norm_obj(x) for x in o]
-    return o
+    return base_value(o)
 
 
 def norm_key(k):
-    return k
+    return base_value(k)
 
 
 class Holder:
@@ -584,8 +614,63 @@ def builder_history_eval(spec, which):
     return fails
 
 
+# ---- defining another builder class must not change what the existing ones do ----------------------------------------------
+import collections as _collections
+
+Point = _collections.namedtuple('Point', 'x y')
+
+
+class Money:
+    def __init__(self, cents):
+        self.cents = cents
+
+
+def subclass_history_eval(which):
+    """In a pristine process: convert a few documents, define a Builder subclass with handlers of its own (never used), convert
+    the same documents again through the *other* builder classes. Returns a list of differences."""
+    from graphtage.builder import BasicBuilder, Builder
+    from graphtage import pydiff, IntegerNode, StringNode
+    from graphtage import json as gj
+
+    def snapshot():
+        out = {}
+        for name, doc in (('namedtuple', [Point(1, 2)]), ('tuple', (1, (2, 3))), ('mapping', {'a': [1, {'b': 2}]}), ('set', {1, 2}),
+                          ('custom', Money(250))):
+            for entry in ('basic', 'pydiff', 'json'):
+                if entry == 'json' and name in ('set', 'custom'):
+                    continue
+                try:
+                    t = convert(entry, doc, 'auto', True, False)
+                    out[(name, entry)] = repr(plain_with_placeholders(t)) + ' as ' + type(t).__name__
+                except Exception as e:  # noqa
+                    out[(name, entry)] = f'raises {type(e).__name__}'
+        return out
+
+    before = snapshot()
+    base = BasicBuilder if which == 'basic' else pydiff.PyObjBuilder
+
+    class Custom(base):         # noqa: defined, never instantiated
+        @Builder.builder(Point)
+        def build_point(self, obj, children):
+            return StringNode(f'{obj.x},{obj.y}')
+
+        @Builder.expander(Point)
+        def expand_point(self, obj):
+            return ()
+
+        @Builder.builder(Money)
+        def build_money(self, obj, children):
+            return IntegerNode(obj.cents)
+
+    after = snapshot()
+    return [f'{k[0]} through {k[1]}: {before[k]} before, {after[k]} after a {base.__name__} subclass was defined'
+            for k in sorted(before) if before[k] != after[k]]
+
+
 def all_specs(tier):
     q = tier == 'quick'
+    yield from specs(1, SUBCLASS_SCALARS, maxslots=1)
+    yield from specs(2, SUBCLASS_SCALARS[:2] if q else SUBCLASS_SCALARS, maxslots=1, types=('list', 'dict', 'tuple'))
     yield from specs(1, (1, 'a'), types=('dictk',))
     yield from specs(2, (1, 'a'), types=('dictk', 'tuple', 'set', 'list'))
     if not q:
@@ -650,8 +735,19 @@ def _shard(i, n, tier, payload):
                 r.fail(f['key'], {'builder_history': [[t, [list(x) for x in slots]] for t, slots in hspec], 'which': which}, f['detail'], order=3 * 10 ** 8 + hidx)
             if not hf:
                 r.outcomes.add(h(('bh', hidx, which)))
-    # custom objects: every ordered pair of attribute sets, each sequence in a pristine forked process
     from props.c07_pure import in_fresh_child
+    for wi, which in enumerate(('basic', 'pydiff')):
+        if wi % n == i % 2 and i < 2:
+            r.evaluations += 1
+            st, diffs = in_fresh_child(subclass_history_eval, which)
+            if st != 'ok':
+                r.fail('subclass_history_raised @ harness', {'subclass_history': which}, str(diffs), order=4 * 10 ** 8 + wi)
+            elif diffs:
+                r.fail(f'conversion_depends_on_other_builder_classes @ Builder.__init_subclass__ : after a {which} subclass was defined',
+                       {'subclass_history': which}, '; '.join(diffs)[:600], order=4 * 10 ** 8 + wi)
+            else:
+                r.outcomes.add(h(('subclass', which)))
+    # custom objects: every ordered pair of attribute sets, each sequence in a pristine forked process
     j = 0
     for a in range(len(REC_ATTRS)):
         for b in range(len(REC_ATTRS)):
@@ -675,6 +771,14 @@ def run(ctx):
 
 
 def replay(case):
+    if 'subclass_history' in case:
+        from props.c07_pure import in_fresh_child
+        st, diffs = in_fresh_child(subclass_history_eval, case['subclass_history'])
+        if st != 'ok':
+            return {'key': 'subclass_history_raised @ harness', 'detail': str(diffs)}
+        if diffs:
+            return {'key': f'conversion_depends_on_other_builder_classes @ Builder.__init_subclass__ : after a {case["subclass_history"]} subclass was defined', 'detail': '; '.join(diffs)[:600]}
+        return None
     if 'builder_history' in case:
         fs = builder_history_eval(case['builder_history'], case['which'])
         return fs[0] if fs else None
